@@ -130,7 +130,7 @@ func c10Oracle(c ev.Case) Res {
 			for j < len(s) && (gen.IsLetter(s[j]) || s[j] == '_') {
 				j++
 			}
-			if v := kw[gen.UpperASCII(s[i:j])]; v != 0 && v != 'n' {
+			if v := kwTab()[gen.UpperASCII(s[i:j])]; v != 0 && v != 'n' {
 				res.NT = true
 			}
 			i = j
@@ -263,7 +263,7 @@ func TestC10(t *testing.T) {
 		case 1:
 			s = gen.Mutate(rt, rapid.SampledFrom(att).Draw(rt, "att"), gen.FragSQL)
 		default:
-			s = gen.Mutate(rt, rapid.SampledFrom(corpus.SQL).Draw(rt, "fix"), gen.FragSQL)
+			s = gen.Mutate(rt, rapid.SampledFrom(corp().SQL).Draw(rt, "fix"), gen.FragSQL)
 		}
 		return pair(s, drawMask(rt, s, sqliExempt(s)))
 	})
